@@ -335,6 +335,42 @@ pub fn e2e_out_apply<const N: usize>() {
     kani::cover!(steady && w > 1, "an element leaves a window longer than one");
 }
 
+/// `ts_vrank` (window up to N + 2, pct / rev literal) from a Vec and from a wrapped VecDeque: the returned path of the deque goes
+/// through the default `rolling_apply_idx` body, the Vec through the `_to` fast path (added after seeded change C07-m3)
+pub fn e2e_tsvrank_vec_deq<const N: usize>(pct: bool, rev: bool) {
+    let x = any_opt_small::<N>();
+    let (w, mp) = any_params::<N>();
+    let v: Vec<Option<i32>> = x.to_vec();
+    let d = deque_rot(&x[..], 1);
+    let a: Vec<f64> = v.ts_vrank(w, mp, pct, rev);
+    let b: Vec<f64> = d.ts_vrank(w, mp, pct, rev);
+    assert!(a.len() == N && b.len() == N, "both results have the input length");
+    let mut val = false;
+    let mut i = 0;
+    while i < N {
+        assert!(same_f64(a[i], b[i]), "element-wise identical ts_vrank from both input containers");
+        val |= a[i] == a[i];
+        i += 1;
+    }
+    kani::cover!(val && w > N, "a non-null rank with a window longer than the series");
+    kani::cover!(val && w < N, "a non-null rank with a window shorter than the series");
+}
+
+#[kani::proof]
+#[kani::stub(std::fmt::format, crate::util::fmt_stub)]
+#[kani::unwind(8)]
+pub fn c07_e2e_tsvrank_vec_deq_n2() {
+    e2e_tsvrank_vec_deq::<2>(false, false);
+}
+
+#[cfg(feature = "thorough")]
+#[kani::proof]
+#[kani::stub(std::fmt::format, crate::util::fmt_stub)]
+#[kani::unwind(9)]
+pub fn c07_e2e_tsvrank_vec_deq_n3() {
+    e2e_tsvrank_vec_deq::<3>(true, true);
+}
+
 /// `ts_vsum` written into a caller-supplied NON-CONTIGUOUS ndarray buffer (every second slot of a larger array): the view's
 /// elements equal the returned Vec and the slots in between are untouched (added after seeded change C07-m1).
 pub fn e2e_out_tsvsum_nd_strided<const N: usize, const M: usize>() {
